@@ -90,7 +90,7 @@ func (p *c20POnly) Count() int   { return p.A + 1 }
 
 type c20Lang string
 
-const c20NFixed = 21
+const c20NFixed = 22
 
 func c20Fixed(t int) interface{} {
 	mv := c20MV{A: 11, Lbl: "mv", hid: "secret"}
@@ -126,6 +126,9 @@ func c20Fixed(t int) interface{} {
 	case -15:
 		// keys whose spelling inside a template string needs escapes
 		return map[string]interface{}{"it's": "apostrophe", "say \"hi\"": "quotes", "C:\\temp": "backslash", "a\tb": "tab", "two words": "space", "name": "plain"}
+	case -22:
+		// names that collide under common string hashes
+		return map[string]interface{}{"Ea": "ea", "FB": "fb", "Aa": "aa", "BB": "bb", "Siblings": "sib", "Teheran": "teh", "name": "colliding"}
 	case -19:
 		// structs whose fields are all zero are still structs: fields print 0 / '', methods run
 		return c20MV{}
@@ -146,7 +149,7 @@ func c20Fixed(t int) interface{} {
 	panic("fixed type")
 }
 
-var c20FixedAttrs = []string{"City", "Zip", "Name", "A", "B", "C", "Lbl", "Get", "PGet", "Twice", "hid", "name", "sub", "sub.z", "inner.name", "st.B", "st.A", "st.Get", "nope", "c20MV", "c20Emb", "Only", "Count", "it's", "say \"hi\"", "C:\\temp", "a\tb", "two words", "02134", "2134", "+7", "7", "007", "1", "02", "01"}
+var c20FixedAttrs = []string{"City", "Zip", "Name", "A", "B", "C", "Lbl", "Get", "PGet", "Twice", "hid", "name", "sub", "sub.z", "inner.name", "st.B", "st.A", "st.Get", "nope", "c20MV", "c20Emb", "Only", "Count", "it's", "say \"hi\"", "C:\\temp", "a\tb", "two words", "02134", "2134", "+7", "7", "007", "1", "02", "01", "Ea", "FB", "Aa", "BB", "Siblings", "Teheran"}
 
 // ---- generated types ---------------------------------------------------------------------------
 
@@ -306,9 +309,27 @@ func c20Query(v interface{}, attr string, idx bool) Res {
 		if err != nil {
 			return "", err
 		}
-		return t.Render(map[string]interface{}{"x": v})
+		out, err := t.Render(map[string]interface{}{"x": v})
+		// the template parsed for this expression the first time it was asked for in this process is
+		// kept and rendered again: a parsed template answers like a fresh one, whatever was parsed since
+		c20ParsedMu.Lock()
+		old, seen := c20Parsed[expr]
+		if !seen && len(c20Parsed) < 4000 {
+			c20Parsed[expr] = t
+		}
+		c20ParsedMu.Unlock()
+		if seen && err == nil {
+			oldOut, oldErr := old.Render(map[string]interface{}{"x": v})
+			if oldErr != nil || oldOut != out {
+				return "", fmt.Errorf("the template parsed earlier in this process for {{ %s }} now renders %q (err %v), a freshly parsed one %q", expr, oldOut, oldErr, out)
+			}
+		}
+		return out, err
 	})
 }
+
+var c20Parsed = map[string]*twig.Template{}
+var c20ParsedMu sync.Mutex
 
 var c20FloodSerial int
 
@@ -404,7 +425,8 @@ func checkC20(c C20Case) error {
 
 // ---- generator -----------------------------------------------------------------------------------
 
-var c20Names = []string{"A", "B", "C", "D", "Name", "Lbl", "Zed"}
+// (Ea / FB and Aa / BB collide under the usual 31-multiplier string hash)
+var c20Names = []string{"A", "B", "C", "D", "Name", "Lbl", "Zed", "Ea", "FB", "Aa", "BB"}
 
 func genC20Fields(t *rapid.T, depth int, label string) []ZField {
 	n := rapid.IntRange(1, 6).Draw(t, label+"nf")
